@@ -584,7 +584,7 @@ func exploreDependent(dep []scenario) {
 
 func stage3() {
 	n := len(opNames)
-	type job struct{ a, b, k int }
+	type job struct{ a, b, k, pro int }
 	var jobs []job
 	ks := []int{4}
 	reps := 1
@@ -603,19 +603,58 @@ func stage3() {
 				}
 			}
 			for _, k := range ks {
-				jobs = append(jobs, job{a, b, k})
+				jobs = append(jobs, job{a, b, k, -1})
 			}
 		}
 	}
-	chk.Range(fmt.Sprintf("stage 3: free-running race-detector pass, %d (pair, goroutine count) jobs over goroutine counts %v x %d repetitions, one COLD process per job (no warm-up: lazily built state is built concurrently), each goroutine calling its operation twice, then a sequential epilogue", len(jobs), ks, reps), len(jobs),
+	// prologues: an operation that ends in an error exit runs first, sequentially; then the
+	// goroutines. Failure exits have their own clean-up code; state they leave behind (a buffer
+	// released twice, a half-built cache) only shows under the concurrency that follows. The
+	// prologue is paired with every operation that executes library code (outside the root
+	// package) that the prologue also executes (quick), or with every operation (thorough).
+	nPro := 0
+	for p := 0; p < n; p++ {
+		if !strings.HasPrefix(opNames[p], "fail-") {
+			continue
+		}
+		pf := map[string]bool{}
+		for _, st := range solo[p].Sites {
+			if int(st) < len(siteFuncs) && strings.Contains(siteFuncs[st], "/") || int(st) < len(siteFuncs) && strings.HasPrefix(siteFuncs[st], "common.") {
+				pf[siteFuncs[st]] = true
+			}
+		}
+		for a := 0; a < n; a++ {
+			if strings.HasPrefix(opNames[a], "fail-") && a != p {
+				continue
+			}
+			related := !chk.Quick()
+			for _, st := range solo[a].Sites {
+				if int(st) < len(siteFuncs) && pf[siteFuncs[st]] {
+					related = true
+					break
+				}
+			}
+			if related {
+				jobs = append(jobs, job{a, a, 4, p})
+				nPro++
+			}
+		}
+	}
+	chk.Range(fmt.Sprintf("stage 3: free-running race-detector pass, %d of the jobs with a sequential PROLOGUE (one of the operations that end in an error exit) before the goroutines start,", nPro)+fmt.Sprintf("  %d (pair, goroutine count) jobs over goroutine counts %v x %d repetitions, one COLD process per job (no warm-up: lazily built state is built concurrently), each goroutine calling its operation twice, then a sequential epilogue", len(jobs), ks, reps), len(jobs),
 		func(i int) string {
-			return fmt.Sprint("race ", opNames[jobs[i].a], " ", opNames[jobs[i].b], " k=", jobs[i].k)
+			return fmt.Sprint("race ", opNames[jobs[i].a], " ", opNames[jobs[i].b], " k=", jobs[i].k, " prologue=", jobs[i].pro)
 		},
 		func(l *mc.Local, i int) {
 			j := jobs[i]
 			ctx, cancel := context.WithTimeout(context.Background(), 600*time.Second)
 			defer cancel()
-			cmd := exec.CommandContext(ctx, racerBin, fmt.Sprint(j.a), fmt.Sprint(j.b), fmt.Sprint(j.k), fmt.Sprint(reps))
+			args := []string{fmt.Sprint(j.a), fmt.Sprint(j.b), fmt.Sprint(j.k), fmt.Sprint(reps)}
+			proName := ""
+			if j.pro >= 0 {
+				args = append(args, fmt.Sprint(j.pro))
+				proName = " after the sequential prologue " + opNames[j.pro]
+			}
+			cmd := exec.CommandContext(ctx, racerBin, args...)
 			var so, se bytes.Buffer
 			cmd.Stdout, cmd.Stderr = &so, &se
 			cmd.Env = append(os.Environ(), "GORACE=halt_on_error=1 exitcode=66", "GOMAXPROCS=4")
@@ -632,7 +671,7 @@ func stage3() {
 						rep = rep[:3000]
 					}
 					site := raceSite(rep)
-					d := fmt.Sprintf("data race while running %s concurrently with %s on %d goroutines, at %s", opNames[j.a], opNames[j.b], j.k, site)
+					d := fmt.Sprintf("data race while running %s concurrently with %s on %d goroutines%s, at %s", opNames[j.a], opNames[j.b], j.k, proName, site)
 					chk.Violation("C18/data-race/"+site, d, replayCase{Scenario: opNames[j.a] + " || " + opNames[j.b], Detail: rep})
 					return
 				}
@@ -656,6 +695,10 @@ func stage3() {
 				if sc.Text() == "DONE" {
 					done = true
 				}
+				if c, _ := fmt.Sscanf(sc.Text(), "PRO %q", &r1); c == 1 && j.pro >= 0 && r1 != solo[j.pro].Result {
+					d := fmt.Sprintf("prologue %s returned %.160q in the race-pass build, alone (instrumented build) it returns %.160q", opNames[j.pro], r1, solo[j.pro].Result)
+					chk.Violation("C18/free-running-result-differs/"+opNames[j.pro], d, replayCase{Scenario: d})
+				}
 				if c, _ := fmt.Sscanf(sc.Text(), "RES %d %q %q", &which, &r1, &r2); c == 3 {
 					op := j.a
 					if which == 1 {
@@ -663,7 +706,7 @@ func stage3() {
 					}
 					for _, r := range []string{r1, r2} {
 						if r != solo[op].Result {
-							d := fmt.Sprintf("free-running %s with %s on %d goroutines: %s returned %.160q, alone it returns %.160q", opNames[j.a], opNames[j.b], j.k, opNames[op], r, solo[op].Result)
+							d := fmt.Sprintf("free-running %s with %s on %d goroutines%s: %s returned %.160q, alone it returns %.160q", opNames[j.a], opNames[j.b], j.k, proName, opNames[op], r, solo[op].Result)
 							chk.Violation("C18/free-running-result-differs/"+opNames[op], d, replayCase{Scenario: d})
 						}
 					}
